@@ -12,7 +12,7 @@ Next == UNCHANGED q
 Spec == Init /\ [][Next]_q
 
 Emit == PrintT(<<"CASE", ToJson([route |-> q.route, method |-> q.method, cid |-> q.cid, pid |-> q.pid,
-                                 ct |-> q.ct, size |-> q.size, chunks |-> q.chunks, cls |-> Class(q)])>>)
+                                 ct |-> q.ct, size |-> q.size, chunks |-> q.chunks, abort |-> q.abort, cls |-> Class(q)])>>)
 
 (* static facts of the encoding and of the classifier *)
 Facts ==
